@@ -1,6 +1,7 @@
 package main
 
 import (
+	"encoding/json"
 	"flag"
 	"fmt"
 	"os"
@@ -48,6 +49,8 @@ func main() {
 		os.Exit(cmdCheck(os.Args[2:]))
 	case "list":
 		cmdList(os.Args[2:])
+	case "names":
+		cmdNames()
 	default:
 		fmt.Fprintln(os.Stderr, "unknown command", os.Args[1])
 		os.Exit(2)
@@ -178,4 +181,33 @@ func trunc(s string, n int) string {
 		return s[:n] + "…"
 	}
 	return s
+}
+
+// cmdNames records, for every function under contract, which SSA values the source names of its locals stand for
+// (baseline/names.json, maintenance only; see applyRecordedNames).
+func cmdNames() {
+	p, err := loadAll()
+	if err != nil {
+		fmt.Fprintln(os.Stderr, "load error:", err)
+		os.Exit(2)
+	}
+	sr := newSortReg()
+	out := map[string]map[string][]recName{}
+	recordedNamesLoaded = true // do not alias while recording
+	recordedNames = map[string]map[string][]recName{}
+	for k, c := range p.contract {
+		if c.Trusted || c.Iface || p.funcs[k] == nil || len(p.funcs[k].Blocks) == 0 {
+			continue
+		}
+		func() {
+			defer func() { recover() }()
+			v := newVerifier(p, sr, p.funcs[k], c)
+			v.analyse()
+			out[k] = v.currentNames()
+		}()
+	}
+	b, _ := json.MarshalIndent(out, "", " ")
+	os.MkdirAll(filepath.Join(verifDir, "baseline"), 0o755)
+	os.WriteFile(namesFile(), b, 0o644)
+	fmt.Printf("recorded the local names of %d functions in %s\n", len(out), namesFile())
 }
